@@ -112,6 +112,11 @@ def build_cells(tier, backend):
         cells.append((f"agg:AggDbl:{ek}", f"{seq}.Aggregate(0.5, lambda acc, v: acc + v)", "ev", ("floating", 3)))
         cells.append((f"agg:AggMul:{ek}", f"{seq}.Aggregate(1, lambda acc, v: acc * v)", "ev", summ))
         cells.append((f"agg:Count:{ek}", f"{seq}.Count()", "ev", ("integral", None)))
+        # folds through a conditional on the accumulator (capped sum, clamp, hand-written max with an int seed)
+        cells.append((f"agg:CappedSum:{ek}", f"{seq}.Aggregate(0, lambda acc, v: (acc if acc < 1000 else 1000) + v)", "ev", ("any", None)))
+        cells.append((f"agg:FloorSum:{ek}", f"{seq}.Aggregate(0, lambda acc, v: (acc if acc > 0 else 0) + v)", "ev", ("any", None)))
+        cells.append((f"agg:HandMax:{ek}", f"{seq}.Aggregate(0, lambda acc, v: acc if acc > v else v)", "ev", ("any", None)))
+        cells.append((f"agg:CondAdd:{ek}", f"{seq}.Aggregate(1, lambda acc, v: acc + (v if v > 1 else 1))", "ev", ("any", None)))
     if tier != "quick":
         ops2 = ["+", "-", "*", "/", "%", "**"]
         for o1, o2 in itertools.product(ops2, repeat=2):
